@@ -148,7 +148,7 @@ def budget_ob(ctx, fi, total, budget, label, w):
 # ------------------------------------------------------------------------------------------------------------ AIM
 def check_aim(ctx):
     repo = ctx.repo
-    fi = repo.func(AIM, 'AIM.run')
+    fi = repo.nfunc(AIM, 'AIM.run')
     ctx.analysed(fi)
     w = World(repo, FILES, False, False)
     self_env = {'rho': sym('rho'), 'rounds': sym('rounds'), 'max_model_size': sym('max_model_size'),
